@@ -260,8 +260,11 @@ def run_res(env, w):
         q2 = env.int("q2", 0, Q)
         env.assume(q2 <= tot2)
         other = Resources({Resource(name=names[0], _id="z"): tot2}, _logger=NULL)
-        c2 = Comp("c2")
+        # the second operand's allocation may belong to a computation that also holds resources in the first
+        # (a WorkProfile loaded on two workers of a pool, whose Resources are summed for utilisation reports)
+        c2 = tgt if env.bool("same_comp") else Comp("c2")
         other.allocate(Resource(name=names[0], _id="any"), c2, q2)
+        other_before = getters(other, [names[0]], [])
         s = res + other
         g = getters(s, names, keys)
         for nm in names:
@@ -271,7 +274,12 @@ def run_res(env, w):
                                          g[("alloc", nm)] == before[("alloc", nm)] + extra_q,
                                          g[("avail", nm)] == before[("avail", nm)] + extra_t - extra_q))
         env.require("copy:independent", same(before, getters(res, names, keys)))
+        env.require("add:operands-untouched", same(other_before, getters(other, [names[0]], [])))
+        env.require("add:operands-untouched", sand(owned(other, c2, names)[names[0]] == q2, *[owned(res, c, names)[o] == own0[i][o] for i, c in enumerate(comps) for o in names]))
         invariant(env, s, keys + [names[0] + ":z"], "step:invariant")
+        other.deallocate(c2)
+        g2 = getters(other, [names[0]], [])
+        env.require("add:operands-untouched", sand(g2[("avail", names[0])] == tot2, g2[("alloc", names[0])] == 0), info="releasing the second operand's allocation after the sum")
     invariant(env, res, keys, "step:invariant")
     env.observe("avail", [res.get_available_quantity(Resource(name=nm, _id="any")) for nm in names])
 
@@ -350,6 +358,8 @@ def run_hist(env, w):
         return sand(*conds)
 
     def check_state(ws, ledger, prof_set, tag):
+        if level == "pool" and ws is workers:
+            pool.resources  # what the simulator reads for every utilisation row: a read must not change anything
         for k, wk in enumerate(ws):
             for nm in names:
                 r = Resource(name=nm, _id="any")
